@@ -182,6 +182,17 @@ def run_case(case, ctx):
                     pli = quiet(ctx, PersLandscapeApprox, dgms=[Ainf], hom_deg=0, num_steps=num, **kw)
                     check_grid(ctx, D, pli, start, stop, num, "infinite bar inserted at row %d" % pos, sig="approx-inf-bar")
                 ctx.nontriv("diagram_with_infinite_bar")
+                # indexing is the first thing asked of an object built with compute=False
+                # (constructed outside ctx.call: the object legitimately changes when it computes itself)
+                pld = PersLandscapeApprox(dgms=[A], hom_deg=0, num_steps=num, compute=False, **kw)
+                with contextlib.redirect_stdout(io.StringIO()):
+                    first = pld[0]
+                ctx.trans()
+                ctx.valid()
+                if not np.array_equal(np.asarray(first, dtype=float), values_of(pl)[0]):
+                    ctx.violation("approx-deferred-getitem", "pl[0] of a grid landscape built with compute=False is not its first depth",
+                                  observed=np.asarray(first).tolist() if first is not None else None, expected=values_of(pl)[0].tolist(),
+                                  extra={"D": D, "start": start, "stop": stop, "num_steps": num})
                 pl1 = quiet(ctx, PersLandscapeApprox, dgms=[decoy, A], hom_deg=1, num_steps=num, **kw)
                 check_grid(ctx, D, pl1, start, stop, num, "hom_deg=1 of [decoy, D]")
                 pl2 = quiet(ctx, PersLandscapeApprox, dgms=[np.zeros((0, 2)), decoy, A], hom_deg=2, num_steps=num, **kw)
